@@ -24,9 +24,15 @@ def one_stream(ctx, data, kinds, m, lines, pending):
         for i in range(0, n + 1, step):
             chs.append([data[:i], data[i:]])
     ref = None
-    for chunks in chs:
-        calls, flat, err, _ = dc.run_decoder(chunks, m)
-        replay = dict(replay0, chunks=[c.hex() for c in chunks])
+    forms = [(c, 'bytes', False) for c in chs]
+    # the other documented / plausible call forms of the same chunkings: single bytes as ints, caller-owned bytearrays
+    forms += [(chs[1], 'bytes', True), (chs[1], 'ba_reuse', False)]
+    for c in chs[2:5]:
+        forms += [(c, 'ba_wipe', False), (c, 'ba_reuse', False)]
+    for chunks, form, as_ints in forms:
+        calls, flat, err, _ = dc.run_decoder(chunks, m, form=form, as_ints=as_ints)
+        replay = dict(replay0, chunks=[c.hex() for c in chunks], form=form, as_ints=as_ints)
+        ctx.count('form_' + form + ('_ints' if as_ints else ''))
         if err is not None:
             ctx.violation('C05/decoder-raised', 'on_data raised %s' % err, replay)
             return
